@@ -173,10 +173,51 @@ static void locker(void* arg) {
     uv_mutex_unlock(&mx);
   }
 }
+/* ---- mutex types: a plain uv_mutex_t does not nest, a uv_mutex_init_recursive one does ----
+ * (never uv_mutex_lock twice on a plain mutex: that deadlocks or aborts by contract) */
+static uv_mutex_t* other_m; static int other_r;
+static void other_trylock(void* arg) {
+  (void) arg;
+  other_r = uv_mutex_trylock(other_m);
+  if (other_r == 0) uv_mutex_unlock(other_m);
+}
+static int trylock_from_other_thread(uv_mutex_t* m) {
+  uv_thread_t t;
+  other_m = m; other_r = 99;
+  if (uv_thread_create(&t, other_trylock, NULL)) return 98;
+  uv_thread_join(&t);
+  return other_r;
+}
+static void mutex_type_test(void) {
+  uv_mutex_t p, r; int same, o1, o2, n1, n2, x1, x2, x3;
+  uv_mutex_init(&p);
+  uv_mutex_lock(&p);
+  same = uv_mutex_trylock(&p);                 /* held by this very thread: UV_EBUSY, no nesting */
+  if (same == 0) uv_mutex_unlock(&p);
+  o1 = trylock_from_other_thread(&p);          /* held: UV_EBUSY */
+  uv_mutex_unlock(&p);
+  o2 = trylock_from_other_thread(&p);          /* free after ONE unlock: 0 */
+  uv_mutex_destroy(&p);
+  uv_mutex_init_recursive(&r);
+  uv_mutex_lock(&r);
+  n1 = uv_mutex_trylock(&r);                   /* nests */
+  uv_mutex_lock(&r);                           /* nests again: depth 3 */
+  x1 = trylock_from_other_thread(&r);          /* UV_EBUSY */
+  uv_mutex_unlock(&r); uv_mutex_unlock(&r);
+  x2 = trylock_from_other_thread(&r);          /* still held once: UV_EBUSY */
+  uv_mutex_unlock(&r);
+  x3 = trylock_from_other_thread(&r);          /* as many unlocks as locks: free */
+  n2 = uv_mutex_trylock(&r); if (n2 == 0) uv_mutex_unlock(&r);
+  uv_mutex_destroy(&r);
+  printf("plain_trylock_same_thread=%d plain_trylock_other_thread=%d,%d recursive_trylock_same_thread=%d,%d "
+         "recursive_trylock_other_thread=%d,%d,%d ", same, o1, o2, n1, n2, x1, x2, x3);
+}
+
 static void mutex_test(void) {
   uv_thread_t th[NM]; int i, held_try;
   uv_mutex_init(&mx);
   uv_mutex_lock(&mx); held_try = uv_mutex_trylock(&mx); uv_mutex_unlock(&mx);
+  if (held_try == 0) uv_mutex_unlock(&mx);      /* it nested (it must not): undo, or the lockers below hang */
   for (i = 0; i < NM; i++) uv_thread_create(&th[i], locker, NULL);
   for (i = 0; i < NM; i++) uv_thread_join(&th[i]);
   printf("mutex_overlaps=%d trylock_held=%d ", mx_overlap, held_try);
@@ -296,6 +337,7 @@ static void cond_waiter(void* arg) {
   uv_mutex_lock(&gm); uv_cond_broadcast(&gc); uv_mutex_unlock(&gm);
   while (!c_flag) uv_cond_wait(&cc, &cm);
   c_relock = uv_mutex_trylock(&cm);          /* the mutex is held again: a second lock attempt fails */
+  if (c_relock == 0) uv_mutex_unlock(&cm);   /* it nested (it must not): undo */
   c_woken = 1;
   uv_mutex_unlock(&cm);
 }
@@ -313,6 +355,7 @@ int main(void) {
   uv_mutex_init(&gm); uv_cond_init(&gc);
   rwlock_test(); gate_failed = 0;
   rwlock_queued_writer_test(); gate_failed = 0;
+  mutex_type_test();
   mutex_test();
   sem_test(); gate_failed = 0;
   once_test();
